@@ -36,13 +36,21 @@ fn abort_time(base: &RunLog, l: &RunLog, abort: &Abort) -> Option<u64> {
 
 pub fn judge_abort(scn: &Scenario, base: &RunLog, abort: &Abort, l: &RunLog) -> Vec<oracles::Finding> {
     let mut v = oracles::integrity(l);
-    v.extend(oracles::honest_completion(scn, l));
+    let hit: Vec<Side> = match abort {
+        Abort::ResetTo(_, to_a) => vec![if *to_a { Side::A } else { Side::B }],
+        Abort::CancelAt(_, a) => vec![if *a { Side::A } else { Side::B }],
+        _ => vec![],
+    };
+    let desync = v.iter().any(|f| f.signature == "probe/acked-after-expiry-desynchronises-stream");
+    let mut hc = oracles::honest_completion_hit(scn, l, &hit);
+    if desync {
+        // the two ends no longer agree on stream positions (known finding F18): what the EOF oracle sees is that
+        for f in hc.iter_mut().filter(|f| f.signature.starts_with("eof/")) {
+            f.signature = "probe/acked-after-expiry-desynchronises-stream".into();
+        }
+    }
+    v.extend(hc);
     if let Some(ta) = abort_time(base, l, abort) {
-        let hit: Vec<Side> = match abort {
-            Abort::ResetTo(_, to_a) => vec![if *to_a { Side::A } else { Side::B }],
-            Abort::CancelAt(_, a) => vec![if *a { Side::A } else { Side::B }],
-            _ => vec![],
-        };
         // a RESET is delivered one path latency after the trigger
         let ta = if matches!(abort, Abort::ResetTo(..)) { ta + scn.latency_us } else { ta };
         v.extend(oracles::bounded_failure("C03", l, ta, BOUND_US, &hit, false));
@@ -95,14 +103,47 @@ pub fn run(ctx: &Ctx) -> Outcome {
     for scn in scns.iter().take(n_scn) {
         let base = determinism_check(scn, &Abort::None);
         let mut cases: Vec<(Plan, Abort)> = aborts_for(base.n_sends, &["cut", "reset", "cancel"]).into_iter().map(|a| (vec![], a)).collect();
-        if ctx.tier == Tier::Thorough {
-            // one extra deviation before the cut
+        {
+            // one extra deviation before the abort (quick: a drop before every cut; thorough: drop / dup /
+            // delay before every cut, RESET and cancellation)
+            let fates: Vec<Fate> = if ctx.tier == Tier::Thorough { vec![Fate::Drop, Fate::Dup, Fate::Delay(300_000)] } else { vec![Fate::Drop] };
             for i in 2..base.n_sends {
-                for fate in [Fate::Drop, Fate::Dup, Fate::Delay(300_000)] {
-                    let l1 = crate::duo::scenario::run(scn, &[(i, fate)], &Abort::None);
+                for fate in &fates {
+                    let l1 = crate::duo::scenario::run(scn, &[(i, *fate)], &Abort::None);
                     for k in (i + 1)..l1.n_sends {
-                        cases.push((vec![(i, fate)], Abort::CutAfter(k)));
+                        cases.push((vec![(i, *fate)], Abort::CutAfter(k)));
+                        if ctx.tier == Tier::Thorough {
+                            for side in [true, false] {
+                                cases.push((vec![(i, *fate)], Abort::ResetTo(k, side)));
+                                cases.push((vec![(i, *fate)], Abort::CancelAt(k, side)));
+                            }
+                        }
                     }
+                }
+            }
+        }
+        if ctx.tier == Tier::Thorough {
+            // two earlier deviations (drop / 300 ms delay) before every cut
+            let two = [Fate::Drop, Fate::Delay(300_000)];
+            let firsts: Vec<(usize, Fate, usize)> = (2..base.n_sends).flat_map(|i| two.iter().map(move |f| (i, *f))).collect::<Vec<_>>().par_iter().map(|(i, f)| (*i, *f, crate::duo::scenario::run(scn, &[(*i, *f)], &Abort::None).n_sends)).collect();
+            let seconds: Vec<(Plan, usize)> = firsts
+                .par_iter()
+                .flat_map_iter(|(i, f1, n1)| {
+                    let mut v = vec![];
+                    for j in (*i + 1)..*n1 {
+                        for f2 in two {
+                            let plan = vec![(*i, *f1), (j, f2)];
+                            let n2 = crate::duo::scenario::run(scn, &plan, &Abort::None).n_sends;
+                            v.push((plan, n2));
+                        }
+                    }
+                    v
+                })
+                .collect();
+            for (plan, n2) in seconds {
+                let j = plan[1].0;
+                for k in (j + 1)..n2 {
+                    cases.push((plan.clone(), Abort::CutAfter(k)));
                 }
             }
         }
@@ -128,7 +169,7 @@ pub fn run(ctx: &Ctx) -> Outcome {
             }
         }
         p.distinct_outcomes = classes.len() as u64;
-        p.bound = format!("every send index k of the run ({} sends) x {{network cut, RESET to either side, cancel of either socket}}{}", base.n_sends, if ctx.tier == Tier::Thorough { " + one earlier drop/dup/delay before every cut point" } else { "" });
+        p.bound = format!("every send index k of the run ({} sends) x {{network cut, RESET to either side, cancel of either socket}}{}", base.n_sends, if ctx.tier == Tier::Thorough { " + one earlier drop/dup/delay before every abort point + two earlier drops/delays before every cut" } else { " + one earlier drop before every cut point" });
         p.extra.insert("outcome_classes".into(), json!(classes));
         p.samples.push(json!({"scenario": scn.name, "abort": {"CutAfter": base.n_sends / 2}}));
         p.samples.push(json!({"scenario": scn.name, "abort": {"ResetTo": [3, true]}}));
